@@ -44,3 +44,107 @@ pub fn gen_valid_literal(t: &mut Tape, ascii_only: bool) -> String {
     s.push_str(&quotes);
     s
 }
+
+/// Description of a generated literal for C12.
+#[derive(Clone, Debug)]
+pub struct Lit {
+    pub text: String,
+    /// "valid", "invalid", "ambiguous"
+    pub class: &'static str,
+}
+
+const INDENTS: &[&str] = &["", " ", "  ", "    ", "\t", "\t\t", "  \t", "      ", "\u{3000}", " \u{b}", "\u{c}"];
+const ENDINGS: &[&str] = &["\n", "\r\n", "\r"];
+
+/// The full G-mlstr: quote runs 3/5/7, interior endings LF/CR/CRLF/mixed, closing-line indentation
+/// from spaces/tabs/mixed/U+3000/VT/FF, blank / short / over-indented lines, trailing blanks;
+/// invalid variants (a line not starting with the indentation, text before the closing quotes)
+/// and ambiguous ones (whitespace-only line that is neither empty nor a prefix).
+pub fn gen_literal(t: &mut Tape) -> Lit {
+    let q = match t.below(6) {
+        0 => 5,
+        1 => 7,
+        _ => 3,
+    };
+    let quotes = "'".repeat(q);
+    let indent = if t.chance(1, 2) { " ".repeat(t.below(10) as usize) } else { t.pick_str(INDENTS).to_string() };
+    let mixed_endings = t.chance(1, 4);
+    let main_ending = *t.pick(ENDINGS);
+    let ending = |t: &mut Tape| -> &'static str {
+        if mixed_endings {
+            *t.pick(ENDINGS)
+        } else {
+            main_ending
+        }
+    };
+    let class = match t.below(10) {
+        0 => "invalid",
+        1 => "ambiguous",
+        _ => "valid",
+    };
+    let n = 1 + t.below(5);
+    let bad_line = t.below(n);
+    let mut s = String::new();
+    s.push_str(&quotes);
+    s.push_str(ending(t));
+    for i in 0..n {
+        let is_bad = i == bad_line;
+        if class == "invalid" && is_bad && !indent.is_empty() {
+            // a line that does not start with the indentation: one char of the indentation dropped
+            // or replaced, followed by text
+            if t.chance(1, 2) {
+                let mut it = indent.chars();
+                it.next();
+                s.push_str(it.as_str());
+            } else {
+                s.push_str(if indent.starts_with(' ') { "\t" } else { " " });
+            }
+            s.push_str("x");
+            s.push_str(ending(t));
+            continue;
+        }
+        if class == "ambiguous" && is_bad && !indent.is_empty() {
+            // whitespace-only line, not empty and not a prefix of the indentation
+            s.push_str(if indent.starts_with(' ') { "\t" } else { " " });
+            s.push_str(ending(t));
+            continue;
+        }
+        match t.below(8) {
+            0 => {
+                // empty line
+            }
+            1 if !indent.is_empty() => {
+                // strict prefix of the indentation
+                let mut e = t.below(indent.len() as u32) as usize;
+                while !indent.is_char_boundary(e) {
+                    e -= 1;
+                }
+                s.push_str(&indent[..e]);
+            }
+            2 => {
+                // over-indented whitespace-only line (value = the extra blanks)
+                s.push_str(&indent);
+                s.push_str(t.pick_str(&["  ", "\t", " \t "]));
+            }
+            _ => {
+                s.push_str(&indent);
+                if t.chance(1, 5) {
+                    s.push_str("   ");
+                }
+                s.push_str(t.pick_str(LINE_TEXT));
+                if q > 3 && t.chance(1, 5) {
+                    s.push_str(" ''' in");
+                }
+            }
+        }
+        s.push_str(ending(t));
+    }
+    s.push_str(&indent);
+    if class == "invalid" && indent.is_empty() {
+        // text before the closing quotes
+        s.push_str("x ");
+    }
+    s.push_str(&quotes);
+    let class = if class != "valid" && indent.is_empty() && class == "ambiguous" { "valid" } else { class };
+    Lit { text: s, class }
+}
